@@ -480,7 +480,7 @@ def run_candidate(c):
                     bad.append("expected a diagnostic at %s, got %s" % (pos, seen[ref_en]["check"]["positions"]))
             obs = {"per_encoding": seen}
         elif kind == "check":
-            rc, so, se = run(binp, ["check"] + names, d)
+            rc, so, se = run(binp, ["check"] + names, d, timeout=c.get("timeout", 60))
             cs = codes_of(so + se)
             obs = {"exit": rc, "codes": cs, "ok_line": "OK" in so.split()}
             if rc not in (0, 1):
